@@ -94,6 +94,8 @@ func TestVerifSearch_C13(t *testing.T) {
 		"script S { if (flag(%s)) { x } }",
 		"script S { if (var(%s) == 2) { x } }",
 		"script S { if (var(V) >= %s) { x } else { y } }",
+		"script S { if (var(V) >= value(%s)) { x } else { y } }",
+		"script S { while (var(V) != value(%s + 1)) { x } }",
 		"script S { if (defeated(%s)) { x } }",
 		"script S { switch (var(%s)) { case 1: x } }",
 		"script S { switch (var(V)) { case %s: x\n case 9: y } }",
@@ -136,12 +138,14 @@ func TestVerifSearch_C12(t *testing.T) {
 		"stmt": {"a1\n a2", "b1", "msgbox(\"hi\")", ""},
 		"text": {"\"one\"", "ascii\"two\"", "braille\"three\""},
 		"move": {"walk_up", "walk_down * 2 face_left", ""},
+		"moves": {"walk_up", "walk_down * 2 face_left", ""},
 		"mart": {"ITEM_A", "ITEM_B ITEM_C", ""},
 	}
 	wraps := map[string]string{
 		"stmt": "script S { pre\n %s\n post }",
 		"text": "text T { %s }",
 		"move": "movement M { first %s last }",
+		"moves": "script S { applymovement(1, moves(first %s last)) }",
 		"mart": "mart M { FIRST %s LAST }",
 	}
 	found, tried := 0, 0
@@ -164,7 +168,7 @@ func TestVerifSearch_C12(t *testing.T) {
 					if c == "" && !brace {
 						c = cs[0] // a colon case needs content
 					}
-					if !brace && (kind == "move" || kind == "mart" || kind == "stmt") {
+					if !brace && (kind == "move" || kind == "moves" || kind == "mart" || kind == "stmt") {
 						// a colon case holds exactly one item / statement
 						c = strings.Fields(strings.SplitN(c, "\n", 2)[0])[0]
 						if kind == "stmt" && strings.HasPrefix(cs[i], "msgbox") {
@@ -183,7 +187,7 @@ func TestVerifSearch_C12(t *testing.T) {
 					if d == "" {
 						d = cs[0]
 					}
-					if !brace && (kind == "move" || kind == "mart" || kind == "stmt") {
+					if !brace && (kind == "move" || kind == "moves" || kind == "mart" || kind == "stmt") {
 						d = strings.Fields(strings.SplitN(d, "\n", 2)[0])[0]
 					}
 					sel["_"] = d
